@@ -267,6 +267,44 @@ pub fn gen_far_case(ch: &mut Chooser) -> PlaceCase {
 /// Two hunks; the full old side of the second occurs exactly only inside the region the first one has already
 /// passed (there it is out of order), while at its real place the outer context differs: the lower fuzz level
 /// fails as "misordered", the next level must still be tried and finds the real place.
+/// A file of more than 65536 lines with two copies of the hunk's old side at (almost) the same distance before and
+/// behind the expected line: the nearest one must be taken, the one behind on a tie - also in files this long.
+pub fn gen_huge_tie_case(ch: &mut Chooser) -> PlaceCase {
+    let n = ch.range(65536, 67000);
+    let mut file: Vec<B> = (0..n).map(|i| B::new(format!("line {}\n", i))).collect();
+    let ctx = ch.range(1, 2);
+    let blen = 2 * ctx + 1;
+    let d = ch.range(blen + 1, 3000);
+    let centre = ch.range(d + 10, n - d - blen - 10);
+    let skew = ch.below(3) as i64 - 1; // -1: the copy behind is nearer, 0: tie, 1: the copy in front is nearer
+    let mut block = Vec::new();
+    for i in 0..ctx {
+        block.push(B::new(format!("pre {}\n", i)));
+    }
+    block.push(B::new("old line\n"));
+    for i in 0..ctx {
+        block.push(B::new(format!("post {}\n", i)));
+    }
+    for at in [centre - d, ((centre + d) as i64 + skew) as usize] {
+        for (i, l) in block.iter().enumerate() {
+            file[at + i] = l.clone();
+        }
+    }
+    let mut lines = Vec::new();
+    for i in 0..ctx {
+        lines.push(HLine { tag: b' ', text: B::new(format!("pre {}\n", i)) });
+    }
+    lines.push(HLine { tag: b'-', text: B::new("old line\n") });
+    lines.push(HLine { tag: b'+', text: B::new("new line\n") });
+    for i in 0..ctx {
+        lines.push(HLine { tag: b' ', text: B::new(format!("post {}\n", i)) });
+    }
+    let stated = centre as u64 + 1;
+    let h = HHunk { old_start: stated, new_start: stated, lines, omit_count_one: false, func: None, bare_empty_ctx: false, localised_marker: false };
+    let fuzz = ch.below(3);
+    PlaceCase { file, hunks: vec![h], reverse: false, fuzz, fuzz2: fuzz + 1, cli_threads: None, long_series: 0 }
+}
+
 pub fn gen_frozen_copy_case(ch: &mut Chooser) -> PlaceCase {
     let ctx = ch.range(1, 3);
     let level = ch.range(1, ctx);
@@ -646,6 +684,9 @@ impl Prop for C02 {
         }
         if ch.chance(1, 40) {
             return gen_frozen_copy_case(ch);
+        }
+        if ch.chance(1, 400) {
+            return gen_huge_tie_case(ch);
         }
         gen_place_case(ch, &o)
     }
